@@ -27,6 +27,7 @@ func GenC15(r *core.Rand, tier string) core.Schedule {
 	cfg.PollMs, cfg.LeaseMs, cfg.ReconcileMs, cfg.LogTimeoutMs = 503, 1009, 1013, 5003
 	cfg.RecoveryTypes = []int{0, 0, 0, 0}
 	cfg.FollowerFirst = true
+	cfg.NoReplication = true // only the harness leases; the workers' own lease loops would share the gate
 	var steps []Step
 	n := r.Range(8, 36)
 	for len(steps) < n {
@@ -180,6 +181,7 @@ func (r *run) checkLeases() {
 		op    string
 		rec   leaseRec
 		prev  *leaseRec
+		ver   uint64 // the version the proposer had read
 	}
 	var evts []evt
 	const key = "/tables/t1/lease"
@@ -203,7 +205,7 @@ func (r *run) checkLeases() {
 			continue // compare-and-set refused it
 		}
 		if u.KVPair.Key == key {
-			ev := evt{index: e.Index, op: u.Op}
+			ev := evt{index: e.Index, op: u.Op, ver: u.KVPair.Ver}
 			if exists {
 				var p leaseRec
 				_ = json.Unmarshal([]byte(c.val), &p)
@@ -218,6 +220,13 @@ func (r *run) checkLeases() {
 			cur[u.KVPair.Key] = ver{u.KVPair.Value, e.Index}
 		} else {
 			delete(cur, u.KVPair.Key)
+		}
+	}
+	// who owned the record a deleter had read: its version is the log index of the set that wrote it
+	ownerOfVersion := map[uint64]uint64{}
+	for _, e := range evts {
+		if e.op == "set" {
+			ownerOfVersion[e.index] = e.rec.ID
 		}
 	}
 	claimed := map[uint64]bool{}
@@ -235,7 +244,10 @@ func (r *run) checkLeases() {
 					mine = e
 					break
 				}
-				if t.kind == "return" && e.op == "delete" {
+				// a compare-and-set delete carries the version its proposer read; ReturnTable deletes only
+				// after reading a record of its own node, so the delete of this call is the one whose read
+				// version belongs to a record of this node
+				if t.kind == "return" && e.op == "delete" && ownerOfVersion[e.ver] == t.node.cfg.ID {
 					mine = e
 					break
 				}
@@ -276,15 +288,16 @@ func (r *run) checkLeases() {
 					return
 				}
 				claimed[mine.index] = true
-				if mine.prev == nil || mine.prev.ID != t.node.cfg.ID {
-					owner := uint64(0)
-					if mine.prev != nil {
-						owner = mine.prev.ID
-					}
-					r.fail("C15", "foreign-lease-removed", "foreign-lease-removed", "%s removed the lease record of node %d (metadata log index %d)", what, owner, mine.index)
+				if mine.prev == nil {
+					// the record was already gone (a lagging replica showed the caller its own old lease): the
+					// delete removed nothing, which is all the property asks for
+					r.out.Probe("return-of-already-removed-lease")
+				} else if mine.prev.ID != t.node.cfg.ID {
+					r.fail("C15", "foreign-lease-removed", "foreign-lease-removed", "%s removed the lease record of node %d (metadata log index %d)", what, mine.prev.ID, mine.index)
 					return
+				} else {
+					r.out.Probe("lease-returned")
 				}
-				r.out.Probe("lease-returned")
 			} else if mine != nil && t.err != nil {
 				// a failed return must not have removed anything
 				if mine.prev != nil {
@@ -300,12 +313,26 @@ func (r *run) checkLeases() {
 			r.dig.Add(2)
 		}
 	}
-	// every successful lease write in the log is attributable and legal, also those nobody got acknowledged
+	// every delete that removed a record must have removed a record of the node whose read it was based on
+	// (a delete issued on the strength of somebody else's record is a foreign removal whoever got the answer)
 	for _, e := range evts {
-		if e.op == "set" && e.prev != nil && e.prev.ID != e.rec.ID {
-			// take-over: the previous lease must have expired before the new one starts counting; the
-			// start of the new lease is not in the record, bound it by its expiry minus the longest duration used
-			_ = e
+		if e.op == "delete" && e.prev != nil && !claimed[e.index] {
+			var who *leaseTask
+			for _, t := range r.leaseHist {
+				if t.kind == "return" && e.index > t.callAt && e.index <= t.retAt && t.node.cfg.ID != e.prev.ID {
+					who = t
+				}
+			}
+			unexplained := true
+			for _, t := range r.leaseHist {
+				if t.kind == "return" && e.index > t.callAt && e.index <= t.retAt && t.node.cfg.ID == e.prev.ID {
+					unexplained = false // the owner itself was returning at that time (answer lost or call failed later)
+				}
+			}
+			if unexplained && who != nil {
+				r.fail("C15", "foreign-lease-removed", "foreign-lease-removed", "the lease record of node %d was deleted at metadata log index %d while only node %d was returning a lease", e.prev.ID, e.index, who.node.cfg.ID)
+				return
+			}
 		}
 	}
 }
